@@ -62,9 +62,9 @@ def model_term(c, impl):
     P, S = e2e.g_problem(c, ids), e2e.g_solution(c, s, ids)
     # ValidX.accounted4 = Valid.accounted_b on the document without its required-break activities / transit stops ++ the
     # round-four rules (ARequiredBreak, AJobMixedOrder); the tours handed to `compare` are the stripped ones as well
-    return ('(let X := ' + e2e.g_xproblem(c, ids) + ' in let P := %s in let S := %s in (precond_viol P ++ %s, '
+    return ('(let X := ' + e2e.g_xproblem(c, ids) + ' in let XS := ' + e2e.g_xsolution(c, s, ids) + ' in let P := %s in let S := %s in (precond_viol P ++ %s, '
             'map (fun t => (to_vehicle t, Z.of_nat (to_shift t), map fa_job (job_acts t))) (sl_tours (strip_sol X S)), '
-            'map fst (sl_unassigned (strip_sol X S)), %s))' % (P, S, '(accounted4 X P S)', tr))
+            'map fst (sl_unassigned (strip_sol X S)), %s))' % (P, S, '(accounted4 X XS P S)', tr))
 
 
 def compare(c, impl, model):
